@@ -60,12 +60,15 @@ SensKind(x) ==
     \* half turn about the face diagonal (1,-1,0): the vector part of its quaternion sums to zero
     [] x = "k" -> Sensor("k", <<<<1, -2, 1>>>>, <<<<<<0, -1, 0>>, <<-1, 0, 0>>, <<0, 0, -1>>>>>>, FALSE, P2, <<2>>)
     [] x = "l" -> Sensor("l", <<<<0, 1, 2>>, <<1, 1, 2>>>>, <<<<<<0, -1, 0>>, <<-1, 0, 0>>, <<0, 0, -1>>>>, <<<<-1, 0, 0>>, <<0, 0, -1>>, <<0, -1, 0>>>>>>, TRUE, P2, <<2>>)
+    \* left-handed sensors whose whole orientation path is the unit orientation (static / translating only)
+    [] x = "m" -> Sensor("m", <<<<-1, 2, 2>>>>, <<IdM>>, TRUE, P2, <<2>>)
+    [] x = "n" -> Sensor("n", <<<<0, -1, 1>>, <<1, -1, 1>>, <<1, -1, 3>>>>, <<IdM, IdM, IdM>>, TRUE, P2, <<2>>)
     [] x = "j" -> Sensor("j", <<<<2, 0, 1>>, <<2, 1, 1>>>>, <<MulMM(Rz90, Rx90), MulMM(Tr(Rx90), Rz90)>>, FALSE, P2, <<2>>)  \* order-3 rotations about (1,1,1) and (1,-1,1)... mirror pair
 SensArr(s) ==
   CASE s = 1 -> <<"a">> [] s = 2 -> <<"b">> [] s = 3 -> <<"c">> [] s = 4 -> <<"d">> [] s = 5 -> <<"e">>
     [] s = 6 -> <<"f">> [] s = 7 -> <<"g">> [] s = 8 -> <<"c", "d">> [] s = 9 -> <<"f", "g", "d">>
     [] s = 10 -> <<"b", "a", "h">> [] s = 11 -> <<"a", "d", "e">> [] s = 12 -> <<"e", "c">> [] s = 13 -> <<"h">>
-    [] s = 14 -> <<"d", "d">> [] s = 15 -> <<"i">> [] s = 16 -> <<"j", "c">> [] s = 17 -> <<"i", "g">> [] s = 18 -> <<"k">> [] s = 19 -> <<"l", "k">>
+    [] s = 14 -> <<"d", "d">> [] s = 15 -> <<"i">> [] s = 16 -> <<"j", "c">> [] s = 17 -> <<"i", "g">> [] s = 18 -> <<"k">> [] s = 19 -> <<"l", "k">> [] s = 20 -> <<"m">> [] s = 21 -> <<"n", "c">>
 
 \* flags: 0..3 = 2 * sumup + squeeze
 Build(s) == [field |-> s.field, sumup |-> s.flags \div 2 = 1, squeeze |-> s.flags % 2 = 1, agg |-> s.agg,
